@@ -7,6 +7,7 @@ import Poulpy.Lemmas.MaskAnd
 import Poulpy.Props.C03
 import Poulpy.Lemmas.GadgetCore
 import Poulpy.Lemmas.MulNorm
+import Poulpy.Lemmas.CnvModel
 import Poulpy.Props.C02
 import Poulpy.Props.C07
 
@@ -491,6 +492,33 @@ example (s : List Poly) :
         have hC' := e.symm.trans hC; injection hC' with hC'; subst hC'; decide
       · have e : bigNormalizeOff false 1 4 2 0 [[2], [0], [0]] 4 = some [[2], [0]] := by decide
         have hC' := e.symm.trans hC; injection hC' with hC'; subst hC'; decide) s
+
+/-- **`mul_const_phase_value`** — `glwe_mul_const` decrypts to the product at the documented scale, accumulator level (every rank, every
+limb count, every constant length, every `cnv_offset_hi ≤ sa + sb − 1`): the `sa + sb − hi` limbs of the exact accumulators
+`cnv_by_const_apply(hi, a_i, b)` have a phase whose value, plus `β^{sa+sb−hi}` times the `hi` skipped top limbs (a multiple of the torus
+modulus), is `β · val(phase a) · val(b)` — on the torus `phase(a)·b·β^{hi+1}`; the normalisation (`mul_const_result_phase_modulo_norm`) applies the
+remaining `2^{lo}`, and `(hi+1)·base2k + lo = cnv_offset` (`cnvOffsetSplit_total`): the result is `phase(a)·b·2^{cnv_offset}`.
+(`Lemmas/CnvValue.lean`: Cauchy product with descending weights; `Lemmas/CnvModel.lean`: the executed loops `jMin..jMax` are that product.) -/
+theorem mul_const_phase_value (N : Nat) (hN : 0 < N) (sk : List Poly) (a0 : Col) (as : List Col) (b : List Int) (hi sa : Nat) (β : Ks.R N)
+    (h0 : a0.length = sa) (hall : ∀ x ∈ as, x.length = sa) (hx0 : ∀ l ∈ a0, l.length = N) (hxs : ∀ x ∈ as, ∀ l ∈ x, l.length = N)
+    (hsa : 1 ≤ sa) (hsb : 1 ≤ b.length) (hhi : hi ≤ sa + b.length - 1) :
+    ∑ k ∈ Finset.range (sa + b.length - hi),
+        Ks.ι N (Ks.phaseRow sk (((a0 :: as).map (fun x => cnvByConstCol N (sa + b.length - hi) hi x b)).map (fun col => limbOr0 N col k)))
+          * β ^ (sa + b.length - hi - 1 - k)
+      + β ^ (sa + b.length - hi) * (constTop N β a0 b hi
+          + ∑ i ∈ Finset.range (min sk.length as.length), Ks.ι N (sk.getD i []) * constTop N β (as.getD i []) b hi)
+      = β * (colVal N β a0 + ∑ i ∈ Finset.range (min sk.length as.length), Ks.ι N (sk.getD i []) * colVal N β (as.getD i [])) * constVal N β b :=
+  mulConst_phase_value N hN sk a0 as b hi sa β h0 hall hx0 hxs hsa hsb hhi
+
+example (β : Ks.R 1) :
+    ∑ k ∈ Finset.range (2 + 1 - 0),
+        Ks.ι 1 (Ks.phaseRow [[1]] (((([[3], [0]] : Col) :: [[[1], [0]]]).map (fun x => cnvByConstCol 1 (2 + 1 - 0) 0 x [2])).map
+          (fun col => limbOr0 1 col k))) * β ^ (2 + 1 - 0 - 1 - k)
+      + β ^ (2 + 1 - 0) * (constTop 1 β [[3], [0]] [2] 0
+          + ∑ i ∈ Finset.range (min 1 1), Ks.ι 1 (([[1]] : List Poly).getD i []) * constTop 1 β (([[[1], [0]]] : List Col).getD i []) [2] 0)
+      = β * (colVal 1 β [[3], [0]] + ∑ i ∈ Finset.range (min 1 1), Ks.ι 1 (([[1]] : List Poly).getD i []) * colVal 1 β (([[[1], [0]]] : List Col).getD i []))
+          * constVal 1 β [2] :=
+  mul_const_phase_value 1 (by decide) [[1]] [[3], [0]] [[[1], [0]]] [2] 0 2 β rfl (by decide) (by decide) (by decide) (by decide) (by decide) (by decide)
 
 /-
 NOT PROVED (checked by correspondence on every generated case, see docs/C05.md):
